@@ -362,7 +362,7 @@ async fn one_request<TC: ModelCfg>(rd: &Rd<TC>, cx: &Ctx, rs: &ReaderSpec, ridx:
                 v.facts = facts("any", rs, lag);
                 sh.v(v);
             }
-            sh.states.push(fp(&(ridx, e)));
+            sh.states.push(fp(&(ridx, e, cx.store.inner.lock().unwrap().writes)));
         }
         None => sh.err_answers += 1,
     }
